@@ -52,6 +52,16 @@ CHECKS = {
              "compared with the native expression. Exhaustive over the stated finite matrix, sampling beyond it.",
         note="trusts g++ -O2 on x86-64 as the reference semantics; UB-without-trap inputs are excluded by predicate (counted in evidence)",
         design="4/C05"),
+    "C07": dict(
+        engine="hypothesis-runner",
+        category="exploration",
+        technique="property-based testing over (const source kind x alias chain x mutator) with read-back of the underlying C++ objects through the harness's own pointers",
+        text="Every kind of const source (literals, const_var, add_global_const, const reference/pointer/shared_ptr<const T>, const returns) is reached "
+             "through generated alias chains (reference declaration, :=, parameter, capture, return, bind, container/attribute insertion by reference) "
+             "and attacked with every mutator; the attempt must raise, no C++ function with a mutable parameter may be entered and the C++ objects "
+             "must be unchanged; chains containing a copy check that the source stays unchanged.",
+        note="element-level mutation through const containers is a recorded known finding (excluded by construction, replayed on every run); shared_ptr<arithmetic> parameters are not required to raise",
+        design="4/C07"),
     "C08": dict(
         engine="hypothesis-runner",
         category="exploration",
